@@ -38,7 +38,6 @@ func showTag(t httpflv.Tag) string {
 }
 
 func init() {
-	httpflv.SubSessionWriteChanSize = 0
 
 	register("c11.pack", func(a []string) string {
 		return tokBytes(httpflv.PackHttpflvTag(uint8(numTok(a[0])), uint32(numTok(a[1])), bytesTok(a[2])))
@@ -102,7 +101,10 @@ func init() {
 		ws := boolTok(a[0])
 		tags := parseTags(a[1])
 		conn := newFakeConn(nil)
+		old := httpflv.SubSessionWriteChanSize
+		httpflv.SubSessionWriteChanSize = 0 // synchronous writes for this session only
 		s := httpflv.NewSubSession(conn, base.UrlContext{}, ws, "key")
+		httpflv.SubSessionWriteChanSize = old
 		s.WriteFlvHeader()
 		for _, t := range tags {
 			raw := httpflv.PackHttpflvTag(t.t, t.ts, t.payload)
